@@ -29,12 +29,39 @@ func init() {
 		// second half: loop nests with break / continue / lazybreak only (a write after loop control is where an
 		// error is most easily taken for a control signal)
 		cfgCtl := GenCfg{MaxDepth: 3, MaxNodes: 12, Loops: true, Ctl: true, BreakN: true, LazyBreak: true, PreSuf: true}
+		// fixed templates, one per place a write can happen in (every one of them gets every fault position): raw text,
+		// print with prefix / suffix / raw mark, separators, the else branch of a counter loop, of a range loop over an
+		// empty list, over an UNSET variable and over a non-iterable one, branches of if / switch / ternary, the copy-out
+		// of an include (also of one that ends by exit / break), text after lazybreak, regions
+		fixed := []string{
+			`a{%= si %}b`, `{%= ss pfx < sfx > %}|{%= ss|raw prefix ( suffix ) %}`, `{% for i := 0; i < 3; i++ sep , %}{%= i %}{% endfor %}z`,
+			`{% for i := 0; i < 0; i++ %}x{% else %}E{%= si %}F{% endfor %}`, `{% for _, v := range empty %}x{% else %}E{%= si %}F{% endfor %}`,
+			`{% for _, v := range nope %}x{% else %}E{%= si %}F{% endfor %}`, `a{% for _, v := range nope %}x{% else %}E{% endfor %}`, `{% for _, v := range si %}x{% else %}E{% endfor %}`,
+			`{% for k, v := range lst sep ; %}{%= k %}={%= v %}{% endfor %}`, `{% for _, v := range lst %}{% lazybreak %}[{%= v %}]{% endfor %}`,
+			`{% for _, v := range lst %}{% for i := 0; i < 2; i++ %}{% lazybreak 2 %}({%= i %}){% endfor %}|{% endfor %}`,
+			`{% if si == 1 %}T{%= si %}{% else %}F{% endif %}{% if si == 2 %}T{% else %}F{%= si %}{% endif %}`, `{% switch si %}{% case 1 %}one{%= si %}{% default %}d{% endswitch %}{% switch %}{% case si == 2 %}two{% default %}d{%= si %}{% endswitch %}`,
+			`{%= si == 1 ? ss : bv %}{%= si == 2 ? ss : bv %}`, `h<{% include inc %}>t`, `h<{% include incx %}>t`, `{% for i := 0; i < 2; i++ %}<{% include incb %}>{% endfor %}t`,
+			`{% jsonquote %}"{%= ss %}"{% htmlescape %}<{%= bv %}>{% endhtmlescape %}{% endjsonquote %}`, `{% for _, v := range lst sep , %}{% continue %}{% endfor %}.`,
+			`{% if v, ok := vok(ss); ok %}[{%= v %}]{% else %}no{% endif %}`, `a{% exit %}b`, `{% for _, v := range lst %}{%= v %}{% exit %}{% endfor %}`,
+		}
+		var bases []*RCase
+		for _, src := range fixed {
+			b := &RCase{Tpls: []TplDef{{Key: "inc", Src: `i{%= si %}j`, KeepFmt: true}, {Key: "incx", Src: `i{% exit %}j`, KeepFmt: true}, {Key: "incb", Src: `i{% if i == 1 %}{% break %}{% endif %}j`, KeepFmt: true},
+				{Key: "main", Src: src, KeepFmt: true}}}
+			b.Ops = []SOp{{Kind: "static", Name: "si", Val: int64(1)}, {Kind: "static", Name: "ss", Val: `a"b<c`}, {Kind: "bytes", Name: "bv", Val: []byte("x&y")}, {Kind: "strs", Name: "lst", Val: []string{"p", "q", "r"}},
+				{Kind: "strs", Name: "empty", Val: []string{}}, {Kind: "render", Key: "main"}}
+			bases = append(bases, b)
+			r.Dist["fixed-write-sites"]++
+		}
 		for i := 0; i < nT; i++ {
 			gc := cfg
 			if i%2 == 1 {
 				gc = cfgCtl
 			}
-			base, _ := genCase(r, gc)
+			b, _ := genCase(r, gc)
+			bases = append(bases, b)
+		}
+		for _, base := range bases {
 			if !runWatched(r, base) {
 				break
 			}
